@@ -325,6 +325,30 @@ func (ce *CEnv) eval(e Expr) Val {
 }
 
 func (ce *CEnv) typeByName(name string) types.Type {
+	if strings.HasPrefix(name, "[]") {
+		if et := ce.typeByName(name[2:]); et != nil {
+			return types.NewSlice(et)
+		}
+		return nil
+	}
+	if strings.HasPrefix(name, "*") {
+		if et := ce.typeByName(name[1:]); et != nil {
+			return types.NewPointer(et)
+		}
+		return nil
+	}
+	if i := strings.Index(name, "."); i > 0 && ce.pkg != nil {
+		for _, imp := range ce.pkg.Imports() {
+			if imp.Name() == name[:i] {
+				if o := imp.Scope().Lookup(name[i+1:]); o != nil {
+					if tn, ok := o.(*types.TypeName); ok {
+						return tn.Type()
+					}
+				}
+			}
+		}
+		return nil
+	}
 	switch name {
 	case "int":
 		return types.Typ[types.Int]
@@ -1010,7 +1034,24 @@ func (ce *CEnv) specCall(sf *SpecFn, args []Expr) Val {
 			sub := *ce
 			sub.bound = map[string]Val{}
 			sub.names = map[string]Val{}
+			var decl []string
+			for i, p := range sf.Params {
+				n := fv.q.fresh("ax." + p.Name)
+				sub.bound[p.Name] = Val{T: vals[i].T, S: n}
+				decl = append(decl, "("+n+" "+fv.sortOf(vals[i].T)+")")
+			}
 			t := sub.boolTerm(sub.eval(ax.E))
+			if len(decl) > 0 {
+				var bn []string
+				for _, p := range sf.Params {
+					bn = append(bn, sub.bound[p.Name].S)
+				}
+				app := "(" + name + " " + strings.Join(bn, " ") + ")"
+				if strings.Contains(t, app) {
+					t = "(! " + t + " :pattern (" + app + "))"
+				}
+				t = "(forall (" + strings.Join(decl, " ") + ") " + t + ")"
+			}
 			fv.q.assume(t)
 			fv.note("axiom of spec fn " + sf.Name + ": " + ax.Src)
 		}
